@@ -451,3 +451,71 @@ def rule_node_keeps_transitions(ctx, chk, rule):
                           "is still a transition - successors, strategies and the backward search disagree afterwards)" % (cls, v),
                           expected="self.next_states = list(next_states)", found=show(val)[:140], construct="%s constructor rewrites next_states" % cls)
     return n
+
+
+ITER_MAKERS = ("filter", "map", "zip", "iter", "reversed", "enumerate", "itertools.chain", "itertools.chain.from_iterable", "itertools.islice")
+CONSUMERS = ("list", "tuple", "set", "frozenset", "sorted", "sum", "max", "min", "any", "all", "dict", "next", "len")
+
+
+def rule_single_use_iterators(ctx, chk, rule, modules=None):
+    """A lazy iterator (filter / map / zip / generator expression / generator function) can be walked once.  A local that holds
+    one and is consumed at two places - iterated, or handed to a function that iterates that parameter - gives the second
+    consumer nothing.  Returns the number of iterator-valued locals examined."""
+    modules = modules or SOLVER_MODULES
+    funcs = ctx.prog.all_funcs(modules)
+
+    def makes_iterator(e, f):
+        if isinstance(e, ast.GeneratorExp):
+            return True
+        if isinstance(e, ast.Call):
+            if call_name(e) in ITER_MAKERS:
+                return True
+            for g in ctx.cg.resolve(e, f):
+                if any(isinstance(n, (ast.Yield, ast.YieldFrom)) for n in walk_no_nested_defs(g.node)):
+                    return True
+                rets = [n for n in walk_no_nested_defs(g.node) if isinstance(n, ast.Return) and n.value is not None]
+                if rets and all(isinstance(r.value, ast.GeneratorExp) or (isinstance(r.value, ast.Call) and call_name(r.value) in ITER_MAKERS) for r in rets):
+                    return True
+        return False
+
+    def consumes_param(g, p, depth=0):
+        """does function g walk its parameter p?"""
+        for n in walk_no_nested_defs(g.node):
+            if isinstance(n, (ast.For, ast.comprehension)) and isinstance(n.iter, ast.Name) and n.iter.id == p:
+                return True
+            if isinstance(n, ast.Call) and call_name(n) in CONSUMERS and n.args and isinstance(n.args[0], ast.Name) and n.args[0].id == p:
+                return True
+        return False
+    n_exam = 0
+    for f in funcs:
+        names = {}
+        for st in walk_no_nested_defs(f.node):
+            if isinstance(st, ast.Assign) and len(st.targets) == 1 and isinstance(st.targets[0], ast.Name) and makes_iterator(st.value, f):
+                names.setdefault(st.targets[0].id, []).append(st)
+        for name, defs in names.items():
+            stores = [x for x in walk_no_nested_defs(f.node) if isinstance(x, ast.Name) and x.id == name and isinstance(x.ctx, ast.Store)]
+            if len(stores) != len(defs):
+                continue          # also bound to something else: not tracked
+            n_exam += 1
+            uses = []
+            for n in walk_no_nested_defs(f.node):
+                if isinstance(n, (ast.For, ast.comprehension)) and isinstance(n.iter, ast.Name) and n.iter.id == name:
+                    uses.append((n.iter, "iterated"))
+                if isinstance(n, ast.Call):
+                    if call_name(n) in CONSUMERS and n.args and isinstance(n.args[0], ast.Name) and n.args[0].id == name:
+                        uses.append((n, "consumed by %s()" % call_name(n)))
+                        continue
+                    for i, a in enumerate(n.args):
+                        if isinstance(a, ast.Name) and a.id == name:
+                            for g in ctx.cg.resolve(n, f):
+                                ps = [p for p in g.params if p != "self"]
+                                if i < len(ps) and consumes_param(g, ps[i]):
+                                    uses.append((n, "walked inside %s" % g.short))
+                                    break
+            # two consumers in one pass through the code (a loop body counts once: the definition is inside the same body)
+            if len(uses) >= 2:
+                u0, u1 = uses[0], uses[1]
+                chk.violation(rule, f.where(u1[0]), "`%s` holds a single-use iterator (`%s`) and is consumed twice: %s at line %d, then %s - the second consumer finds it already exhausted "
+                              "(e.g. whenever the first one actually runs)" % (name, src(defs[0].value)[:60], u0[1], u0[0].lineno, u1[1]),
+                              expected="a list, or one consumer", found=norm_stmt(ctx.cfg(f).stmt_of(u1[0])), construct="%s iterator %s consumed twice" % (f.short, name))
+    return n_exam
